@@ -413,9 +413,14 @@ fn main() {
     let mut m = Mon::new("C13", dispatch);
     m.use_hooks = true;
     if !m.replay_if_requested() {
-        for &bits in WIDTHS {
-            if m.width_enabled(bits) {
-                workload(&mut m, bits);
+        loop {
+            for &bits in WIDTHS {
+                if m.width_enabled(bits) {
+                    workload(&mut m, bits);
+                }
+            }
+            if !m.another_light_pass() {
+                break;
             }
         }
     }
